@@ -23,6 +23,7 @@ def corpus(tier, seed):
         std_spec("hole2", s + 5, 25, latent_prior="uniform_nball", constant_volume_mode=False),
         std_spec("gauss4", s + 6, 50, drawsize=37, poolsize=73),
         std_spec("nonuni2", s + 7, 50, accumulate_weights=True),
+        std_spec("hole2", s + 15, 50, accumulate_weights=True, drawsize=41),
         std_spec("gauss2", s + 8, 50, truncate_log_q=True),
         std_spec("rosen2", s + 9, 50, fixed_radius=2.5, constant_volume_mode=False),
         std_spec("gauss2", s + 13, 50, constant_volume_mode=False, expansion_fraction=0.0, fuzz=1.0),
